@@ -1134,10 +1134,18 @@ func judge(c *vlib.Check, bin string, scs []*Scenario, results []*played) {
 	}
 	// an absence already listed as an open finding is re-observed as such; anything else resting on an
 	// absence is confirmed by a second run of the whole scenario with longer waits
+	confirmed := map[string]bool{}  // absence keys reproduced by a confirmation run
+	unconfirmed := map[string]int{} // ... and not reproduced
 	for _, r := range rej {
 		rejected[r.t.sc.ID] = true
+		if c.Violations() >= 20 {
+			break
+		}
 		key, detail := classify(c, r)
-		if strings.HasPrefix(key, "absent:") && !r.t.sc.Long {
+		if strings.HasPrefix(key, "absent:") && unconfirmed[key] >= 3 {
+			continue
+		}
+		if strings.HasPrefix(key, "absent:") && !r.t.sc.Long && !confirmed[key] {
 			again := *r.t.sc
 			again.Long = true
 			again.ID += "-confirm"
@@ -1152,11 +1160,13 @@ func judge(c *vlib.Check, bin string, scs []*Scenario, results []*played) {
 				vlib.Infra("trace validation (confirmation): %v", err)
 			}
 			if len(rej2) == 0 {
+				unconfirmed[key]++
 				c.Set("unconfirmed_"+r.t.sc.ID, key+" not reproduced on the second run with longer waits (slow machine, no verdict)")
 				continue
 			}
 			key2, detail2 := classify(c, rej2[0])
 			key, detail = key2, detail2+"\n(confirmed by a second run of the scenario with longer waits)"
+			confirmed[key] = true
 		}
 		key = strings.TrimPrefix(key, "absent:")
 		devCount[key]++
@@ -1277,22 +1287,6 @@ func selfTest(c *vlib.Check, ts []*tracedScenario, devs map[*tracedScenario][]st
 		}
 	}
 	c.Set("selftest_corrupted_traces_rejected", len(rej))
-}
-
-func divergeKind(d string) string {
-	switch {
-	case strings.Contains(d, "closeCalls"):
-		return "close-callback"
-	case strings.Contains(d, "cend="):
-		return "connection-end"
-	case strings.Contains(d, "source"):
-		return "source-state"
-	case strings.Contains(d, "frames"):
-		return "frames"
-	case strings.Contains(d, "acks"):
-		return "ack"
-	}
-	return "other"
 }
 
 // classify a trace that Ws rejects even with the deviations of the open findings admitted: if the
